@@ -146,10 +146,9 @@ META = {
                 "histories incl. filters, failing updates, four predictors) ties exactly these definitions to /repo. Thread clause: "
                 "16-thread run against sequential results + rustc's Send/Sync check + source scan for interior mutability.",
         "design_ref": "DESIGN.md §6 C08",
-        "note": _common_note + "PARTIAL on two points: (1) 'never panics' for every operation of a history is established for updates/reset (C05), "
-                "predict on well-formed models (C01), filters (C15) and, once C06's proof is merged, fill_tags; a single theorem over "
-                "whole histories (C08_history_safe) is not stated yet — the oracle flags any panic in generated histories; (2) hardware "
-                "interleavings below call granularity are not modelled.",
+        "note": _common_note + "'Never panics' for whole histories (updates incl. rejected input, predict with any predictor, fill_tags, resets, slice writes, "
+                "all filters) is the theorem C18_history_safe in VProofs/C18.lean. PARTIAL on one point: hardware interleavings below call "
+                "granularity are not modelled.",
         "technique": "Lean 4 proof (record equality after update_raw; induction over schedules) + differential correspondence + multi-thread run",
     },
     "C16": {
